@@ -435,6 +435,59 @@ func runC05(c *Ctx) {
 	for _, ix := range m.cmpIndexOperands(m.siftDn) {
 		phiLeaves(ix, stop, seen, &leaves)
 	}
+	// an index chosen by a helper that hands back one of the indices it was given (min := q.lesser(i, lc)) stands
+	// for those indices
+	for k := 0; k < 3; k++ {
+		var out []ssa.Value
+		changed := false
+		for _, lf := range leaves {
+			call, ok := lf.(*ssa.Call)
+			var picks []int
+			if ok {
+				if h := origin(staticCallee(&call.Call)); h != nil && h.Blocks != nil && h.Pkg == origin(m.siftDn).Pkg {
+					all := true
+					allInstrs(h, func(in ssa.Instruction) {
+						ret, isRet := in.(*ssa.Return)
+						if !isRet || len(ret.Results) != 1 {
+							return
+						}
+						var rl []ssa.Value
+						phiLeaves(ret.Results[0], nil, map[ssa.Value]bool{}, &rl)
+						for _, r := range rl {
+							idx := -1
+							for j, p := range h.Params {
+								if r == ssa.Value(p) && isIntType(p.Type()) {
+									idx = j
+								}
+							}
+							if idx < 0 {
+								all = false
+							} else {
+								picks = append(picks, idx)
+							}
+						}
+					})
+					if !all {
+						picks = nil
+					}
+				}
+			}
+			if len(picks) == 0 {
+				out = append(out, lf)
+				continue
+			}
+			changed = true
+			for _, j := range picks {
+				if j < len(call.Call.Args) {
+					phiLeaves(call.Call.Args[j], stop, seen, &out)
+				}
+			}
+		}
+		leaves = out
+		if !changed {
+			break
+		}
+	}
 	childSet := map[aff]bool{}
 	childOK := true
 	for _, lf := range leaves {
@@ -725,6 +778,13 @@ func runC05(c *Ctx) {
 					cm, ok := edgeCmp(iff, i)
 					return ok && (hBeyond(cm) || hMoved(cm))
 				})
+				// (the walk starts behind the helper's first instruction: a helper that begins with the sift is one)
+				if hDown(firstInstr(h)) {
+					d = true
+				}
+				if hUp(firstInstr(h)) {
+					u = true
+				}
 				return d && u
 			}
 			// the shape of the heap exempts a direction: the root (k == 0) has nothing above it, a slot whose first
